@@ -210,22 +210,22 @@ def overwritten_before(fn, v, test_bb, field_suffix, owner_root):
     return out
 
 
-def rule_e(R, ctx):
+def rule_e(R, ctx, rid="C05.e"):
     Y = ctx.yrs
-    R.rule("C05.e", "R-ORDER the 'is this the right-most entry' tests read the neighbour pointer before it is overwritten: in "
+    R.rule(rid, "R-ORDER the 'is this the right-most entry' tests read the neighbour pointer before it is overwritten: in "
                     "ItemPtr::splice no write / Option::replace of self.right dominates the `item.right.is_none()` test that guards the "
                     "map pointer fix-up (otherwise the test is vacuously false and Branch.map[key] keeps pointing at the left half); "
                     "in integrate_item the `item.right` test guarding parent.map.insert follows the final assignment of item.right")
     sp = Y.fn("yrs::block::ItemPtr::splice")
     sv = FnView(sp)
     tests = [l for l in sv.lits if lit_call(l, "std::option::Option::is_none") and term_has_field(l.term, "Item.right")]
-    R.floor("C05.e", "item.right.is_none() test in splice", len(tests), 1)
+    R.floor(rid, "item.right.is_none() test in splice", len(tests), 1)
     for k, l in enumerate(tests[:1]):
         # block where is_none is called
         call_bb = simp(l.term)[3]
         owner = root_name(simp(l.term)[2][0])
         ow = overwritten_before(sp, sv, call_bb, "Item.right", owner)
-        R.ob("C05.e", sp, "right-read-before-write#%d" % k, not ow,
+        R.ob(rid, sp, "right-read-before-write#%d" % k, not ow,
              "self.right is overwritten at %s before the right-most test reads it" % ow if ow else "the test reads the old right neighbour")
 
 
